@@ -467,6 +467,7 @@ func prefixExperiment(sum *lib.Summary, seed uint64, tier string, vm bool) {
 	rt := runtime.NewRuntime(runtime.Config{})
 	longLived := newEnvSet(vm) // reused across ALL trials of this engine: leftovers accumulate
 	var longLivedHistory []execSpec
+	reported := 0
 	for p := 0; p < nprobes; p++ {
 		probe := genProbe(r)
 		base := execOn(w0.clone(), runtime.NewRuntime(runtime.Config{}), nil, vm, probe, 0xF0)
@@ -525,7 +526,11 @@ func prefixExperiment(sum *lib.Summary, seed uint64, tier string, vm bool) {
 			if i, x, y := firstDiff(base, got); i >= 0 {
 				// shrink the prefix: replay subsets with a new environment, keep what is needed for a difference
 				min := history
-				budget := 400
+				budget := 250
+				if reported >= 2 {
+					budget = 0 // only the first failures of a shard are minimized
+				}
+				reported++
 				differs := func(h []execSpec) bool {
 					envs2 := newEnvSet(vm)
 					scratch2 := w0.clone()
@@ -538,7 +543,7 @@ func prefixExperiment(sum *lib.Summary, seed uint64, tier string, vm bool) {
 					return k >= 0
 				}
 				minimized := false
-				if differs(min) {
+				if budget > 0 && differs(min) {
 					minimized = true
 					for again := true; again && budget > 0; {
 						again = false
